@@ -59,6 +59,68 @@ func c17(c *core.Ctx) {
 
 	waits := findCondWaits(c)
 	rShape := c.Rule("C17.loop", "every (*sync.Cond).Wait sits in a for loop whose predicate reads state of the cond's owner, with the cond's lock held", 3)
+	rCC := c.Rule("C17.closecompletes", "once swamp.Close or swamp.Destroy has published closing=1, every path to its exit cancels the swamp's context (what WaitForGracefulClose waits for) and sends the closed event (what removes the swamp from the live map): no error branch may return in between, otherwise every later summon of the swamp blocks until its timeout", 4)
+	for _, k := range []string{pkgSwamp + ".swamp.Close", pkgSwamp + ".swamp.Destroy"} {
+		f := c.Fn(k)
+		fi := f.Info()
+		fl := core.NewFlow(p, fi, f.Decl.Body)
+		closingF := p.MustField(pkgSwamp, "swamp", "closing")
+		var store *ast.CallExpr
+		core.Calls(f.Decl.Body, false, func(call *ast.CallExpr) {
+			if core.IsCallTo(fi, call, "sync/atomic.StoreInt32") && len(call.Args) == 2 {
+				if u, ok := core.Unparen(call.Args[0]).(*ast.UnaryExpr); ok && core.FieldOf(fi, u.X) == closingF {
+					if v, isC := core.ConstInt(fi, call.Args[1]); isC && v == 1 && store == nil {
+						store = call
+					}
+				}
+			}
+		})
+		if store == nil {
+			rCC.Bad(k+":closing-store", f.Decl.Pos(), "the function no longer publishes closing=1")
+			continue
+		}
+		ls := fl.MustLocate(store)
+		cancelF := p.MustField(pkgSwamp, "swamp", "goRoutineCancelFunction")
+		// exits that are legitimate without completing: the "already closing / already destroyed" early returns,
+		// recognised as returns dominated by a test of closing==1 or of the destroyed flag taken before any teardown
+		idempotent := func(n ast.Node) bool {
+			ret, ok := n.(*ast.ReturnStmt)
+			if !ok {
+				return false
+			}
+			l, found := fl.Locate(ret)
+			if !found {
+				return false
+			}
+			for _, ft := range fl.FactsAt(l) {
+				ok2 := false
+				ast.Inspect(ft.Expr, func(y ast.Node) bool {
+					if sel, isSel := y.(*ast.SelectorExpr); isSel {
+						if fv := core.FieldOf(fi, sel); fv != nil && (fv.Name() == "destroyed" || fv == closingF) && ft.Truth {
+							ok2 = true
+						}
+					}
+					return true
+				})
+				if ok2 {
+					return true
+				}
+			}
+			return false
+		}
+		for _, step := range []struct {
+			name string
+			is   func(*ast.CallExpr) bool
+		}{
+			{"context-cancelled", func(c2 *ast.CallExpr) bool { return core.FieldOf(fi, c2.Fun) == cancelF }},
+			{"closed-event-sent", func(c2 *ast.CallExpr) bool { return core.IsWsCallTo(fi, c2, pkgSwamp+".swamp.sendClosedEvent") }},
+		} {
+			pass := core.NodeHasCall(step.is)
+			leaks := fl.ExitWithout(ls, nil, false, func(n ast.Node) bool { return pass(n) || idempotent(n) })
+			rCC.Check(!leaks, k+":"+step.name, store.Pos(), "reached on every path after closing=1", "a path returns after closing=1 was published without this step (an error branch that gives up): the swamp stays 'closing' forever, WaitForGracefulClose never returns and every later summon of the swamp fails after its timeout")
+		}
+	}
+
 	rLock := c.Rule("C17.cond-lock", "a write to wait-predicate state happens under the cond's lock, or a Broadcast/Signal issued under that lock follows it on every path (otherwise a waiter between its test and Wait misses the wake-up forever)", 3)
 	rSig := c.Rule("C17.cond-signal", "a write that can make a waiter's predicate false is followed by Broadcast/Signal on every path to exit", 3)
 	seenOwner := map[string]bool{}
